@@ -40,10 +40,13 @@ impl TransactionOutputAmountBuilder {
     #[verifier::external_body] pub fn with_asset_and_min_required_coin_by_utxo_cost(&self, multiasset: &MultiAsset, data_cost: &DataCost) -> (r: Result<TransactionOutputAmountBuilder, JsError>) { unimplemented!() }
     #[verifier::external_body] pub fn build(&self) -> (r: Result<TransactionOutput, JsError>) { unimplemented!() }
 }
-impl TransactionBuilder {
-    /// registers the mint with the mint builder (MintBuilder::add_asset -> update_mint_value: unit mint_update); here: only the mint field may change
-    #[verifier::external_body] pub fn add_mint_asset(&mut self, policy_script: &NativeScriptO, asset_name: &AssetNameO, amount: &IntO) -> (r: Result<(), JsError>)
-        ensures *final(self) == (TransactionBuilder { mint: final(self).mint, ..*old(self) }) { unimplemented!() }
+opaque_types!(NativeScriptSourceO, MintWitnessO);
+impl NativeScriptSourceO { #[verifier::external_body] pub fn new(script: &NativeScriptO) -> (r: NativeScriptSourceO) { unimplemented!() } }
+impl MintWitnessO { #[verifier::external_body] pub fn new_native_script(native_script: &NativeScriptSourceO) -> (r: MintWitnessO) { unimplemented!() } }
+impl MintBuilder {
+    // (MintBuilder::new / add_asset are under contract in unit mint_update; here the mint builder is opaque: only WHICH field of the builder changes matters)
+    #[verifier::external_body] pub fn new() -> (r: MintBuilder) { unimplemented!() }
+    #[verifier::external_body] pub fn add_asset(&mut self, mint: &MintWitnessO, asset_name: &AssetNameO, amount: &IntO) -> (r: Result<(), JsError>) { unimplemented!() }
 }
 
 // ===== explicitly required signers (C18: one of the signer sources) ==============================================================================================
@@ -52,4 +55,10 @@ impl Ed25519KeyHashes {
     /// the key hashes held (Ed25519KeyHashes::add is proved duplicate-free in unit dedup_keyhashes)
     pub uninterp spec fn keys(&self) -> Set<Ed25519KeyHashO>;
     #[verifier::external_body] pub fn add(&mut self, k: &Ed25519KeyHashO) -> (r: bool) ensures final(self).keys() == old(self).keys().insert(*k) { unimplemented!() }
+}
+
+impl TxInputsBuilder {
+    /// TxInputsBuilder::add_regular_input (PROVED in unit tx_inputs: the input map keyed by outpoint, amount and script size kept): `with_regular`, or unchanged on error
+    #[verifier::external_body] pub fn add_regular_input(&mut self, address: &Address, input: &TransactionInput, amount: &Value) -> (r: Result<(), JsError>)
+        ensures r is Ok ==> *final(self) == old(self).with_regular(*address, *input, *amount), r is Err ==> *final(self) == *old(self) { unimplemented!() }
 }
